@@ -73,6 +73,9 @@ fn one<T: SwiftMessageBody + serde::de::DeserializeOwned + serde::Serialize + Cl
             let j2 = serde_json::to_value(&m2).unwrap_or(Value::Null);
             if canon(&j2) != canon(&j) {
                 rep.fail(&format!("json_value_changed|MT{code}|roundtrip"), wit("from_value(to_value(m)) differs from m", json!({"first": j, "second": j2})));
+            } else if format!("{:?}", m2) != format!("{:?}", m) {
+                // same JSON, different typed value (e.g. a date read back into another century)
+                rep.fail(&format!("json_typed_value_changed|MT{code}|roundtrip"), wit("from_value(to_value(m)) is not equal to m (Debug forms differ)", json!({"json": j})));
             } else if m2.to_mt_message() != direct {
                 rep.fail(&format!("json_mt_differs|MT{code}|roundtrip"), wit("the message read back from JSON serialises to a different MT text", json!({"direct": direct, "via_json": m2.to_mt_message()})));
             }
@@ -132,9 +135,11 @@ pub fn run(o: &Opts) -> Report {
     let grammars = mgen::load_grammars();
     let mut pool = mgen::build_pool(if o.thorough() { 6 } else { 2 });
     // dates across the century window and currencies of every precision
-    for (t, c) in [("32A", "500101KWD1,234"), ("32A", "491231JPY1500"), ("32A", "991231CLF12,3456"), ("32A", "000229USD0,01"), ("30", "500101"), ("30", "491231"),
+    let special: Vec<(&str, &str)> = vec![("32A", "500101KWD1,234"), ("32A", "491231JPY1500"), ("32A", "991231CLF12,3456"), ("32A", "000229USD0,01"), ("30", "500101"), ("30", "491231"),
                    ("32B", "BHD0,001"), ("32B", "JPY1"), ("33B", "KWD999,999"), ("60F", "C500101KWD1000,123"), ("62F", "D491231JPY1000"), ("13D", "5001012359+1400"),
-                   ("13D", "4912310000-1459"), ("11S", "103500101"), ("11R", "1034912311234123456"), ("61", "500101C5,NTRFNONREF"), ("71F", "JPY100"), ("34F", "KWDD1,001")] {
+                   ("13D", "4912310000-1459"), ("11S", "103500101"), ("11R", "1034912311234123456"), ("61", "500101C5,NTRFNONREF"), ("71F", "JPY100"), ("34F", "KWDD1,001"),
+                   ("13D", "6812312359+0000"), ("13D", "6901010000+0000"), ("32A", "681231USD1,00"), ("30", "681231"), ("30", "690101"), ("60F", "C681231USD1,00"), ("62F", "C690101USD1,00")];
+    for &(t, c) in special.iter() {
         let v = pool.by_tag.entry(t.to_string()).or_default();
         if !v.contains(&c.to_string()) {
             v.push(c.to_string());
@@ -148,7 +153,16 @@ pub fn run(o: &Opts) -> Report {
         let mut tries = 0;
         while made < per_type && tries < per_type * 6 {
             tries += 1;
-            let gm = mgen::generate(code, g, &mut rng, &pool);
+            let mut gm = mgen::generate(code, g, &mut rng, &pool);
+            // every fourth message carries the boundary contents (century window ends, every currency precision) wherever their tag occurs
+            if tries % 4 == 0 {
+                for ch in gm.chunks.iter_mut() {
+                    let cands: Vec<&str> = special.iter().filter(|(t, _)| *t == ch.tag).map(|(_, c)| *c).collect();
+                    if !cands.is_empty() {
+                        ch.content = rng.pick(&cands).to_string();
+                    }
+                }
+            }
             let body = tok::render(&gm.chunks, "\n", false);
             let (b3, b5) = envelopes[rng.below(3)];
             let text = format!("{{1:F01BANKBEBBAXXX0000000000}}{{2:I{:03}BANKDEFFXXXXN}}{b3}{{4:\n{}\n-}}{b5}", code, body.trim_end_matches('\n'));
